@@ -287,6 +287,41 @@ def _run(ctx):
                 bsi = orc_free_si(back, pa, fs, size)
                 if bsi is not None and abs(bsi - D(reading) * D(size)) > abs(D(reading) * D(size)) * Decimal("1e-6"):
                     ctx.violation("C18:round-trip:quantity-level-quantity", f"{q} -> {lv.magnitude!r} -> {back!r} after {nm} was set to {size} Pa", {"family": fname, "size": size})
+    # ---- one Level object asked more than once: first under a coarse ambient precision (a report with 6 digits), then
+    # under the ordinary one; and again after the reading was adjusted in place (magnitude is a plain attribute)
+    for k in range(30 if ctx.tier == "quick" else 2000):
+        fname = rng.choice(fam_names)
+        logarithm, base, prefix = families[fname]
+        rname, ref, kk, alts = rng.choice(refs)
+        x0 = Decimal(repr(round(rng.uniform(-30, 40), 1)))
+        with lib():
+            lu = logarithm[ref]
+            lv = x0 * lu
+            with decimal.localcontext() as coarse:
+                coarse.prec = rng.choice([5, 6, 8])
+                try:
+                    lv.quantify()
+                except Exception:
+                    pass
+            readings = [("after a coarse first reading", lv.magnitude)]
+        for label, _ in (("after a coarse first reading", None), ("after the level was adjusted in place", None)):
+            if label.startswith("after the level"):
+                with lib():
+                    lv.magnitude = lv.magnitude + 3
+            ctx.count("evaluations")
+            ctx.count("levels_quantified_more_than_once")
+            ctx.distinct(("requantified", fname, rname, label), True)
+            try:
+                with lib():
+                    got = lv.quantify()
+            except Exception as e:
+                ctx.violation(f"C18:quantify:raised-{type(e).__name__}", f"({lv.magnitude} {fname}[{rname}]).quantify() {label}: {e}", {"family": fname})
+                continue
+            want = D(ref.magnitude) * D(oracle.prefix_value(ref.unit.prefix)) * (D(lv.magnitude) * D(prefix) / Decimal(kk) * base.ln()).exp()
+            gotv = D(got.magnitude) * D(oracle.prefix_value(got.unit.prefix))
+            if abs(gotv - want) > abs(want) * Decimal("1e-9"):
+                ctx.violation("C18:quantify:wrong-magnitude", f"({lv.magnitude} {fname}[{rname}]).quantify() {label} gives {got.magnitude!r}, the definition gives {core.sf(want)!r}",
+                              {"family": fname, "reference": rname, "when": label})
     ctx.require("postconditions/level", 200)
     ctx.require("postconditions/quantify", 200)
     ctx.require("monotone_chains", 50)
